@@ -1,7 +1,7 @@
 From CDD Require Import PyStr Val.
-From CDD Require CstRun AdhocRun GenRun MergeRun DocSplitRun.
+From CDD Require CstRun AdhocRun GenRun MergeRun DocSplitRun LoopsRun NameSanRun.
 
-Definition tables : list (string * (val -> val)) := CstRun.table ++ AdhocRun.table ++ GenRun.table ++ MergeRun.table ++ DocSplitRun.table.
+Definition tables : list (string * (val -> val)) := CstRun.table ++ AdhocRun.table ++ GenRun.table ++ MergeRun.table ++ DocSplitRun.table ++ LoopsRun.table ++ NameSanRun.table.
 
 Definition dispatch (fn : str) (a : val) : val :=
   match lookup_fn fn tables with
